@@ -5,8 +5,13 @@ package main
 import (
 	"encoding/json"
 	"fmt"
+	"go/ast"
+	"go/parser"
+	"go/scanner"
+	"go/token"
 	"math/rand"
 	"os"
+	"path/filepath"
 	"strings"
 )
 
@@ -52,6 +57,8 @@ type c03Input struct {
 	Ops     []C03Op   `json:"ops"`
 	// the interface is generic (`Store[T any]`, T stands where Named is used) and the driver instantiates it
 	Generic bool `json:"generic"`
+	// per method: what the template's emitted text depends on (read by Gen/TestifyEmit.lean)
+	Shapes []TShape `json:"shapes"`
 }
 
 type c03 struct{}
@@ -154,6 +161,7 @@ func (c03) Generate(c *Ctx) []any {
 }
 
 func fillTokens(in *c03Input) {
+	in.Shapes = c03Shapes(in)
 	for k := range in.Ops {
 		op := &in.Ops[k]
 		m := in.Methods[op.M]
@@ -618,6 +626,13 @@ func (c03) Run(c *Ctx, raw json.RawMessage) Case {
 		}
 	}
 	impl := map[string]any{"trace": trace}
+	if len(in.Shapes) == 0 {
+		// an input recorded before the text-level comparison existed
+	} else if decls, derr := testifyDecls(filepath.Join(dir, "store", "mocks_test.go"), "MockStore", in.Methods); derr == nil {
+		impl["emitted"] = decls
+	} else {
+		impl["emitted"] = map[string]any{"error": derr.Error()}
+	}
 	want := c03Expected(&in)
 	or := Oracle{OK: true}
 	for i := range want {
@@ -643,3 +658,178 @@ func (c03) Run(c *Ctx, raw json.RawMessage) Case {
 }
 
 var _ = rand.Intn
+
+// ---- the emitted declarations, text level ---------------------------------------------------
+//
+// For every method the Lean model prints the declarations the testify template emits for it
+// (Gen/TestifyEmit.lean) from the method's shape; the harness reads the same declarations out of
+// the file the real generator wrote. Both are compared as token sequences without layout and
+// comments (a trailing comma before a closing bracket is not a token of its own here).
+
+type TShape struct {
+	StructName  string      `json:"structName"`
+	TConstraint string      `json:"tconstraint"`
+	TInst       string      `json:"tinst"`
+	Testify     string      `json:"testify"`
+	Name        string      `json:"name"`
+	Params      [][2]string `json:"params"`
+	Variadic    []string    `json:"variadic"` // name, element type; empty when not variadic
+	Results     [][2]string `json:"results"`  // type, kind (error | nillable | plain)
+	Unroll      bool        `json:"unroll"`
+	RetName     string      `json:"retName"`
+}
+
+func c03Shapes(in *c03Input) []TShape {
+	tname := func(t int) string {
+		s := bTypes[t].Go
+		if in.Generic {
+			s = reNamedWord.ReplaceAllString(s, "T")
+		}
+		return s
+	}
+	var out []TShape
+	for _, m := range in.Methods {
+		sh := TShape{StructName: "MockStore", Testify: "mock", Name: m.Name, Params: [][2]string{}, Variadic: []string{}, Results: [][2]string{},
+			Unroll: in.unrolled(), RetName: "ret"}
+		if in.Generic {
+			sh.TConstraint, sh.TInst = "[T any]", "[T]"
+		}
+		for i, t := range m.Params {
+			sh.Params = append(sh.Params, [2]string{m.paramName(i), tname(t)})
+		}
+		if m.Variadic >= 0 {
+			sh.Variadic = []string{"rest", tname(bTypes[m.Variadic].SliceOf)}
+		}
+		for _, t := range m.Results {
+			kind := "plain"
+			switch {
+			case bTypes[t].Go == "error":
+				kind = "error"
+			case bTypes[t].Nillable, in.Generic && bTypes[t].Go == "Named": // a type parameter's underlying type is its constraint interface
+				kind = "nillable"
+			}
+			sh.Results = append(sh.Results, [2]string{tname(t), kind})
+		}
+		out = append(out, sh)
+	}
+	return out
+}
+
+// squeezed token text of src[from:to]; rename maps identifiers
+func squeezeGo(src []byte, rename map[string]string) string {
+	var s scanner.Scanner
+	fset := token.NewFileSet()
+	f := fset.AddFile("", fset.Base(), len(src))
+	s.Init(f, src, nil, 0)
+	var toks []string
+	var kinds []token.Token
+	for {
+		_, tok, lit := s.Scan()
+		if tok == token.EOF {
+			break
+		}
+		if tok == token.SEMICOLON { // written or inserted: layout
+			continue
+		}
+		text := lit
+		if text == "" || tok.IsOperator() {
+			text = tok.String()
+		}
+		if tok == token.IDENT {
+			if r, ok := rename[lit]; ok {
+				text = r
+			}
+		}
+		if (tok == token.RPAREN || tok == token.RBRACE) && len(kinds) > 0 && kinds[len(kinds)-1] == token.COMMA {
+			toks, kinds = toks[:len(toks)-1], kinds[:len(kinds)-1]
+		}
+		toks, kinds = append(toks, text), append(kinds, tok)
+	}
+	return strings.Map(func(r rune) rune {
+		if r == ' ' || r == '\t' || r == '\n' {
+			return -1
+		}
+		return r
+	}, strings.Join(toks, ""))
+}
+
+func recvTypeName(fd *ast.FuncDecl) string {
+	if fd.Recv == nil || len(fd.Recv.List) != 1 {
+		return ""
+	}
+	t := fd.Recv.List[0].Type
+	if st, ok := t.(*ast.StarExpr); ok {
+		t = st.X
+	}
+	switch x := t.(type) {
+	case *ast.IndexExpr:
+		t = x.X
+	case *ast.IndexListExpr:
+		t = x.X
+	}
+	if id, ok := t.(*ast.Ident); ok {
+		return id.Name
+	}
+	return ""
+}
+
+// the per-method declarations of a generated testify mock file: method name -> key -> squeezed text
+func testifyDecls(path, structName string, methods []BMethod) (map[string]map[string]string, error) {
+	src, err := os.ReadFile(path)
+	if err != nil {
+		return nil, err
+	}
+	fset := token.NewFileSet()
+	file, err := parser.ParseFile(fset, path, src, parser.SkipObjectResolution)
+	if err != nil {
+		return nil, err
+	}
+	out := map[string]map[string]string{}
+	for _, m := range methods {
+		out[m.Name] = map[string]string{}
+	}
+	text := func(n ast.Node, rename map[string]string) string {
+		return squeezeGo(src[fset.Position(n.Pos()).Offset:fset.Position(n.End()).Offset], rename)
+	}
+	for _, d := range file.Decls {
+		switch x := d.(type) {
+		case *ast.GenDecl:
+			if x.Tok != token.TYPE {
+				continue
+			}
+			for _, sp := range x.Specs {
+				ts := sp.(*ast.TypeSpec)
+				for _, m := range methods {
+					if ts.Name.Name == structName+"_"+m.Name+"_Call" {
+						out[m.Name]["calltype"] = "type" + text(ts, nil)
+					}
+				}
+			}
+		case *ast.FuncDecl:
+			rt := recvTypeName(x)
+			for _, m := range methods {
+				switch {
+				case rt == structName && x.Name.Name == m.Name:
+					out[m.Name]["method"] = text(x, nil)
+				case rt == structName+"_Expecter" && x.Name.Name == m.Name:
+					out[m.Name]["expecter"] = text(x, nil)
+				case rt == structName+"_"+m.Name+"_Call":
+					key := strings.ToLower(x.Name.Name)
+					var rename map[string]string
+					if key == "return" {
+						rename = map[string]string{}
+						i := 0
+						for _, f := range x.Type.Params.List {
+							for _, n := range f.Names {
+								rename[n.Name] = fmt.Sprintf("_r%d", i)
+								i++
+							}
+						}
+					}
+					out[m.Name][key] = text(x, rename)
+				}
+			}
+		}
+	}
+	return out, nil
+}
